@@ -266,3 +266,15 @@ Example C06_nonvacuous :
   is_value (mkfcase m Raw (Some [1; 3]) (map (scale_col 3) cols)) [1 # 2; 1 # 3].
 Proof. exact nonvacuous_example. Qed.
 Print Assumptions C06_nonvacuous.
+
+(* non-vacuity of the geometric-mean theorems: horizon weights 1/2, 1/2, 1 on relative errors
+   4, 1, 2 give integer weights 1, 1, 2, degree 4, product 16, value 2 - and the same value when
+   all weights are multiplied by 3/2 *)
+Example C06_nonvacuous_gmean :
+  let cols := [mkcol [5; 2; 3] [1; 1; 1] [4; 1; 2] []] in
+  let m := mkmetric (FSimple BRel (P0 PAbs) GMean) false in
+  gm_weights (Some [1 # 2; 1 # 2; 1]) 3 = [1; 1; 2]%Z /\
+  is_value (mkfcase m Raw (Some [1 # 2; 1 # 2; 1]) cols) [2] /\
+  is_value (mkfcase m Raw (Some (map (Qmult (3 # 2)) [1 # 2; 1 # 2; 1])) cols) [2].
+Proof. exact gmean_weighted_example. Qed.
+Print Assumptions C06_nonvacuous_gmean.
